@@ -1,5 +1,5 @@
 (* C01 Dispatch: a route is chosen iff one admits the path, by the documented priority. *)
-Require Import Base Regex RegexProofs Route Tree TreeProofs Router RouterProofs RouteSpec.
+Require Import Base Regex RegexProofs Route Tree TreeProofs TreeWf TreeAdd TreeComplete TreeDispatch Router RouterProofs RouteSpec.
 
 (* Proved (soundness half of "iff", for every tree whatsoever, every path, every header predicate):
    whatever the matcher returns is a registered root-to-leaf path of the tree that admits the
@@ -21,11 +21,50 @@ Proof. exact serve_tree_sound. Qed.
 Theorem C01_regex_exact : forall r s, full r s <> None <-> matches r s.
 Proof. exact full_iff. Qed.
 
-(* C01_dispatch_iff / C01_priority in full - "mtree (tree built by add_route from rs) (segs path) =
-   spec_winner rs path" with spec_winner of RouteSpec.v (flat routes, all derivations, lexicographic key
-   (fallback, rank, birth, captured) per depth) - is NOT proved yet: completeness needs the
-   well-formedness invariant of add_route.  It is evaluated on every generated case by the
-   correspondence check (model = implementation = spec_winner); see DESIGN.md. *)
+(* C01_dispatch_iff, for every list of registrations that were all accepted (reg_all = Some t: the tree
+   is the one the code builds), every path and every header predicate: the matcher returns a route
+   iff some registered route, in its long form or - when its last segment is optional - its short
+   form, admits the segments and its header constraints hold.  A failure deeper in a preferred branch
+   therefore falls back to the next alternative, never to not-found while an admitting route exists.
+   [forms r] are the kind lists of the route, each segment classified in the context of the route's
+   own earlier segments; [adm] is the declarative admits relation of TreeProofs.v.
+   Hypothesis [good]: a class of segment-element lists containing every registered segment on which
+   canonical rendering is injective - true of parser output (the parser's canonical form, C06). *)
+Theorem C01_dispatch_iff : forall compile (good : list elem -> Prop),
+  good [] -> (forall a b, good a -> good b -> render_elems a = render_elems b -> a = b) ->
+  forall hdr_ok rs t segs,
+  (forall rid r, In (rid, r) rs -> route_good good r) ->
+  reg_all compile empty rs = Some t ->
+  (mtree hdr_ok t segs <> None <->
+   exists rid r l ks ps, In (rid, r) rs /\ forms compile r = Some l /\ In ks l /\ adm ks segs ps /\ hdr_ok rid = true).
+Proof. intros compile good G0 Inj. exact (dispatch_iff compile good G0 Inj). Qed.
+
+(* ... and the route returned is one of the admitting ones, with the values its pattern captures *)
+Theorem C01_dispatch_sound_registered : forall compile (good : list elem -> Prop),
+  good [] -> (forall a b, good a -> good b -> render_elems a = render_elems b -> a = b) ->
+  forall hdr_ok rs t segs rid ps,
+  (forall rid r, In (rid, r) rs -> route_good good r) ->
+  reg_all compile empty rs = Some t -> mtree hdr_ok t segs = Some (rid, ps) ->
+  exists r l ks, In (rid, r) rs /\ forms compile r = Some l /\ In ks l /\ adm ks segs ps /\ hdr_ok rid = true.
+Proof. intros compile good G0 Inj. exact (dispatch_sound compile good G0 Inj). Qed.
+
+(* the invariants registration maintains (children sorted by rank with stable insertion, keys
+   distinct, at most one match-all child and it is last) and the exact set of paths it adds *)
+Theorem C01_registration_invariant : forall compile (good : list elem -> Prop),
+  good [] -> (forall a b, good a -> good b -> render_elems a = render_elems b -> a = b) ->
+  forall fuel root t anc aa segs rid t',
+  wfo compile good anc aa t -> Forall (fun s => good (elems s)) segs ->
+  add_segs compile fuel root t anc aa segs rid = Some t' ->
+  wfo compile good anc aa t' /\
+  exists l, news compile root anc aa segs = Some l /\
+            forall p, In p (paths t') <-> In p (paths t) \/ In p (with_rid rid l).
+Proof. intros compile good G0 Inj. exact (add_segs_ok compile good G0 Inj). Qed.
+
+(* C01_priority in full - "which of several admitting routes wins" = RouteSpec.spec_winner (flat
+   routes x derivations, least key (fallback, rank, birth, captured) per depth) - is NOT proved yet: it
+   is evaluated on every generated request by the correspondence check (implementation = model =
+   spec_winner).  What IS proved about order: the matcher is a depth-first search of a tree whose
+   children are sorted by rank with stable (registration-order) insertion, the match-all child last. *)
 
 Example C01_example :
   let r1 := [mkseg false [EIdent [97]%N]; mkseg false [EBind [120]%N]] in      (* /a/{x} *)
@@ -41,3 +80,5 @@ Proof. vm_compute. split; reflexivity. Qed.
 Redirect "assum/C01.1" Print Assumptions C01_dispatch_sound.
 Redirect "assum/C01.2" Print Assumptions C01_serve_sound.
 Redirect "assum/C01.3" Print Assumptions C01_regex_exact.
+Redirect "assum/C01.4" Print Assumptions C01_dispatch_iff.
+Redirect "assum/C01.5" Print Assumptions C01_registration_invariant.
